@@ -352,6 +352,14 @@ int ops_misc(char **args, int na)
 			if (gk) { uint8_t *k; size_t kl; if (unhex(gk, &k, &kl)) _exit(3); it = mtbl_source_get(mtbl_reader_source(r), k, kl); }
 			else it = mtbl_source_iter(mtbl_reader_source(r));
 			const uint8_t *k, *v; size_t kl, vl; long n = 0;
+			const char *wk = kv(args + 2, na - 2, "warm"), *sk = kv(args + 2, na - 2, "seek");
+			if (wk) {
+				/* position the SAME iterator in another block first: seek + one next (not counted) */
+				uint8_t *kk; size_t kkl; if (unhex(wk, &kk, &kkl)) _exit(3);
+				mtbl_iter_seek(it, kk, kkl);
+				mtbl_iter_next(it, &k, &kl, &v, &vl);
+			}
+			if (sk) { uint8_t *kk; size_t kkl; if (unhex(sk, &kk, &kkl)) _exit(3); mtbl_iter_seek(it, kk, kkl); }
 			FILE *p = fdopen(pfd[1], "w");
 			while (mtbl_iter_next(it, &k, &kl, &v, &vl) == mtbl_res_success) {
 				n++; fprintf(p, "%ld ", n); puthex(p, k, kl); fputc('\n', p); fflush(p);
